@@ -43,7 +43,7 @@ ROUTES = ['list', 'generator', 'array', 'index', 'go', 'from_labels', 'tuple', '
 DERIVS = ['none', 'iloc', 'drop_iloc', 'drop_loc', 'relabel_pair', 'relabel_dict', 'roll', 'sort', 'sort_desc', 'union',
           'intersection', 'difference', 'level_add', 'astype_object', 'rename', 'copy', 'to_go_and_back', 'series_index',
           'frame_columns', 'head', 'tail', 'loc_list', 'values_roundtrip']
-HDERIVS = ['none', 'iloc', 'roll', 'sort', 'level_add', 'level_drop_outer', 'flat', 'rename', 'copy', 'union',
+HDERIVS = ['none', 'iloc', 'roll', 'sort', 'level_add', 'level_drop_outer', 'level_drop_inner', 'flat', 'rename', 'copy', 'union',
            'intersection', 'difference', 'series_index', 'to_go_and_back', 'pickle', 'astype_object', 'relabel_pair']
 
 
@@ -764,6 +764,18 @@ def _derive_hier(ctx, idx, labels, depth, deriv, arg, klass):
         if n == 0:
             return None
         return idx.level_add('OUT'), [('OUT',) + tuple(l) for l in labels], True
+    if deriv == 'level_drop_inner':
+        # dropping the innermost depth keeps one label per remaining path (documented: the size may change)
+        if n == 0:
+            return None
+        outer, seen = [], set()
+        for l in labels:
+            key = tuple(cs(x) for x in l[:-1])
+            if key not in seen:
+                seen.add(key)
+                outer.append(tuple(l[:-1]))
+        model = [l[0] for l in outer] if depth == 2 else outer
+        return idx.level_drop(-1), model, True
     if deriv == 'level_drop_outer':
         inner = [l[1:] for l in labels]
         if n == 0 or len({cs(x) for x in inner}) != n or (depth > 2 and not K.is_tree(inner)):
@@ -971,4 +983,26 @@ def _check_history(case, ctx):
                 return
     bijection(ctx, idx, model, klass, 'final')
     for d, m in derived:
-        bijection(ctx, d, m, dict(klass, derived='copy_before_growth'), 'copy')
+        if not bijection(ctx, d, m, dict(klass, derived='copy_before_growth'), 'copy'):
+            return
+        # labels the source gained after `d` was derived are not labels of `d`: neither members nor resolvable
+        cm_then = [cs(x) for x in m]
+        for lab in [x for x in model if not any(canon.leq(cs(x), y) for y in cm_then)][:4]:
+            key = tuple(lab) if isinstance(lab, (tuple, list)) else lab
+            try:
+                inside = key in d
+            except Exception:
+                inside = False
+            found = False
+            try:
+                pos = d.loc_to_iloc(key)
+                # (a datetime key absent from a datetime index resolves to an empty selection, an int on an auto-integer index is
+                # read as a position: neither is a label found)
+                found = isinstance(pos, (int, np.integer)) and not _is_auto_positional(d, key)
+            except Exception:
+                found = False
+            if inside or found:
+                ctx.violation('bijection:label_of_grown_source_found_in_derived', detail={'label': repr(lab), 'member': inside, 'resolved': found,
+                                                                                         'derived_labels': repr(m)[:300]},
+                              klass=dict(klass, derived='copy_before_growth'))
+                return
